@@ -13,7 +13,8 @@
     graphs the abstract statement is proved in general (c02_portgraph_partial,
     c02_portgraph_embedding_accepted); at run level the property is false in
     general (known findings D5, D6, D10) and proved where none of them can
-    interfere: c02_portgraph_run_reports_embeddings_of_good_patterns. *)
+    interfere: c02_portgraph_run_complete_on_single_root_pattern_sets (and its
+    special case c02_portgraph_run_reports_embeddings_of_good_patterns). *)
 From PM Require Import Model.Prelude Model.Domain Model.Automaton Model.DomString Model.DomMatrix
   Model.Traversal Spec.Occ Cert.WfCheck Cert.WinCheck Cert.CharCert Cert.ExampleAut Proofs.WinSound Proofs.StringRun
   Model.DomPGKeys Model.DomPG Model.DomPGPattern Cert.PGCert Proofs.PGComplete Proofs.PGEmbedComplete Proofs.MatrixRun
@@ -149,6 +150,28 @@ Theorem c02_portgraph_run_reports_embeddings_of_good_patterns :
       /\ forall k, In k keys -> exists u, In (u, k) nk /\ pgget b k = Some (f u).
 Proof. exact pg_run_reports_embedding. Qed.
 
+(** The general positive statement for port graphs: any set of patterns none of
+    which needs a second index root ([aut_single_root]: every key of the automaton
+    hangs off Root(0)); the keys recorded for pattern i are keys of the good
+    pattern P ([match_keys_in]).  list_bind_options is then a function of the
+    image of the root, every binding map of the run is a restriction of one
+    canonical map, and the constraints - of every pattern of the set - have the same
+    truth value concretely and abstractly (Proofs/PGRunSingleRoot.v).  The known
+    class D10 is exactly the failure of this with a second index root. *)
+Theorem c02_portgraph_run_complete_on_single_root_pattern_sets :
+  forall (P : pghost) (root : N) cs nk (H : pghost) (f : N -> N)
+         (A : automaton pgkey pgpred) rk ids css pres i fuel ms,
+    pg_cvec_full P root = Ok (cs, nk) -> lines_sound P root = true -> keys_distinct nk = true ->
+    pg_good_pattern P root cs nk = true -> pg_host_wfb P = true -> pg_host_wfb H = true ->
+    pg_embedding P H root nk f ->
+    wf_check pg_dom A rk ids = true -> cert_complete pg_entails pg_refutes A css pres = true ->
+    nth_error css i = Some cs -> nth_error pres i = Some true ->
+    aut_single_root A = true -> match_keys_in nk A (N.of_nat i) = true ->
+    run pg_dom fuel A H = Ok ms ->
+    exists st keys b, In st (au_states A) /\ In (N.of_nat i, keys) (a_matches st) /\ In (N.of_nat i, b) ms
+      /\ forall k, In k keys -> exists u, In (u, k) nk /\ pgget b k = Some (f u).
+Proof. exact pg_run_reports_embedding_single_root_sets. Qed.
+
 Print Assumptions c02_cert_complete_partial.
 Print Assumptions c02_string_partial.
 Print Assumptions c02_string.
@@ -157,3 +180,4 @@ Print Assumptions c02_matrix_partial.
 Print Assumptions c02_portgraph_partial.
 Print Assumptions c02_portgraph_embedding_accepted.
 Print Assumptions c02_portgraph_run_reports_embeddings_of_good_patterns.
+Print Assumptions c02_portgraph_run_complete_on_single_root_pattern_sets.
